@@ -201,6 +201,27 @@ def run(check):
     jobs.append({"cfg": {}, "script": [["write", "c", 0, 10, False], ["deliver", 0], ["rebind"], ["write", "c", 0, 10, True],
                                         ["deliver", 0], ["dup", 0], ["deliver", 0], ["deliver", 0], ["deliver", 0]],
                  "seed": 2, "hs_adv": False, "profile": "corpus-dup-path-response"})
+    # corpus: the stream is finished by an empty write, so the FIN travels alone; it overtakes the last data (reordering), or
+    # the data is lost and retransmitted after the FIN arrived
+    for ep, sid in (("c", 0), ("s", 1), ("c", 2), ("s", 3)):
+        # (the pauses let the pacer release each write as a datagram of its own; the acknowledgement the receiver sends at once
+        # for the overtaking FIN is lost, the delayed one covers both packets, so the sender sees no loss and repeats nothing)
+        two = [["tick", 50000], ["write", ep, sid, 300, False], ["tick", 50000], ["write", ep, sid, 0, True]]
+        jobs.append({"cfg": {}, "script": two + [["swap"], ["deliver", 0], ["deliver", 0], ["drop", 0]],
+                     "seed": 3, "hs_adv": False, "profile": "corpus-fin-only-overtakes-data"})
+        jobs.append({"cfg": {}, "script": two + [["swap"], ["deliver", 0], ["deliver", 0]],
+                     "seed": 3, "hs_adv": False, "profile": "corpus-fin-only-overtakes-data"})
+        jobs.append({"cfg": {}, "script": two + [["drop", 0], ["deliver", 0]],
+                     "seed": 4, "hs_adv": False, "profile": "corpus-fin-only-data-lost"})
+    # corpus: the flight that uses up the peer's connection credit exactly loses its tail (less than half the window arrives,
+    # so no MAX_DATA comes back): retransmissions need no new credit
+    for ep, sid, key in (("c", 0, "s_max_data"), ("s", 1, "max_data")):
+        for md, keep in ((6000, 2), (3000, 1), (12000, 4)):
+            cfg = {"max_stream_data": 1 << 20, "s_max_stream_data": 1 << 20, "max_data": 1 << 20, "s_max_data": 1 << 20}
+            cfg[key] = md
+            jobs.append({"cfg": cfg, "script": [["tick", 50000], ["write", ep, sid, 20000, True]] + [["timer", ep]] * (md // 1000 + 2)
+                         + [["deliver", 0]] * keep + [["drop", 0]] * 16,
+                         "seed": 5, "hs_adv": False, "profile": "corpus-credit-exhausted-tail-loss"})
     jobs += zrtt_jobs(rnd, 1 if check.quick else 20)
     results = runner.run_many(job_fn, jobs)
     check.cov["zero_rtt_packets_on_the_wire"] = sum(r["zrtt"] for r in results)
